@@ -124,7 +124,13 @@ def handleFileCfg (f : Fmt) (cfg : Hdrs) (kv : List (String × String)) (impl : 
     let known (pass : List Ammo × Stop) : Bool := !pre || pass.1.all fun a => (parseURL a.url).isSome
     let mobs : Option String :=
       match f with
-      | .uri => if known (uriPass file []) then ammoObs conc (withCfgRes cfg (uriDeliver file k pre)) else none
+      | .uri =>
+        -- library nuance (bufio.Scanner): a LAST line without newline of exactly `maxTok` bytes fills the Scanner's buffer
+        -- completely; it is `token too long` when the end of the file shows only at the next Read (what `uriPass` models),
+        -- but a token when the Read that completed it returned io.EOF together with the data (`eofd=1`): not predicted
+        let lastLen := ((splitOn LF file).getLast?.getD []).length
+        if getS kv "eofd" == "1" && lastLen == maxTok then none
+        else if known (uriPass file []) then ammoObs conc (withCfgRes cfg (uriDeliver file k pre)) else none
       | .uripost => if known (uripostPass true file []) then ammoObs conc (withCfgRes cfg (uripostDeliver true file k pre)) else none
       | .raw => rawObs conc cfg tbl (rawDeliver file k pre)  -- the table is the library's part (http.ReadRequest); the `headers` option is applied here
     let m := mobs.getD "*"
@@ -140,14 +146,24 @@ def handleFileCfg (f : Fmt) (cfg : Hdrs) (kv : List (String × String)) (impl : 
           match f with
           | .raw =>
             let fr := expFrames items
+            -- what each frame denotes: the Lean reading of its HTTP text (`frameCanon`, plain frames); the library's
+            -- reading (the table: `http.ReadRequest`, run by the harness on the frame alone) for the others.  Where both
+            -- exist they must agree; if they ever do not, the library stands and the case is counted as a skip.
+            let differs := fr.any fun ft =>
+              match frameCanon ft.frame, lookup tbl (hex ft.frame) with
+              | some c, some l => c != l
+              | _, _ => false
             let strs := fr.mapM fun ft =>
-              match lookup tbl (hex ft.frame) with
-              | some "!" => none
-              | some c => some (enrichCanon cfg c ++ ",t=" ++ hex ft.tag)
-              | none => none
+              match (if differs then none else frameCanon ft.frame), lookup tbl (hex ft.frame) with
+              | some c, _ => some (enrichCanon cfg c ++ ",t=" ++ hex ft.tag)
+              | none, some "!" => none
+              | none, some c => some (enrichCanon cfg c ++ ",t=" ++ hex ft.tag)
+              | none, none => none
             match strs with
             | none => (m, "skip:frame-not-a-request")
-            | some pass => (m, judge (canonOrder conc (expected pass k)) (expectedErr pass) ireqs ierr)
+            | some pass =>
+              let v := judge (canonOrder conc (expected pass k)) (expectedErr pass) ireqs ierr
+              (m, if differs && v == "ok" then "skip:lean-http-differs-from-library" else v)
           | _ =>
             let pass := (expReqs f cfg [] items).map reqStr
             (m, judge (canonOrder conc (expected pass k)) (expectedErr pass) ireqs ierr)
